@@ -1041,3 +1041,13 @@ Lemma orig_late_resolve_crashes : ts (thr (late_resolve Orig) 7) = Done (Crash A
 Proof. vm_compute. reflexivity. Qed.
 Lemma fixed_late_resolve_none : ts (thr (late_resolve Fixed) 7) = Done (Ok VNone).
 Proof. vm_compute. reflexivity. Qed.
+
+(* Why the invariant "a closed DLC has an empty receive queue" (sock_ok, 4th part) matters, and what the
+   unrepaired DataLinkConnection.enqueue (state test outside the lock, fixes/c09-8) broke: a connect()
+   woken by close() that finds a CC in the queue of the closed socket sets ESTABLISHED again; the socket
+   has meanwhile left the access point table and is never shut down with the link. *)
+Example revive_needs_empty_queue :
+  let closed_with_cc := mkSock DLC SHUTDOWN true true true [ICC] 0 1 1 0 0 in
+  st (o_sock (seg Fixed PConn2 closed_with_cc false true)) = ESTABLISHED /\
+  o_act (seg Fixed PConn2 (set_rq closed_with_cc []) false true) = ARet (Err (LlcpError EPIPE)).
+Proof. vm_compute. split; reflexivity. Qed.
